@@ -436,7 +436,7 @@ func c20Wiring(c *Ctx, purego bool) {
 		for _, ci := range ana.Calls(f) {
 			if ci.Common().StaticCallee() != nil && ci.Common().StaticCallee() == cp {
 				t := b.CallTermAt(ci)
-				_, ok = ana.Match("call<*>(alloc<[729]uint>, alloc<[729]uint>, faddr<l>(p0), faddr<h>(p0))", t)
+				_, ok = ana.Match("call<*>(alloc<[729]uint>, alloc<[729]uint>, faddr<#0>(p0), faddr<#1>(p0))", t)
 				a0, a1 := ci.Common().Args[0], ci.Common().Args[1]
 				ok = ok && a0 != a1
 				// copies back: c.l = *ltmp ; c.h = *htmp
@@ -446,10 +446,10 @@ func c20Wiring(c *Ctx, purego bool) {
 						if st, isSt := ins.(*ssa.Store); isSt && ana.InstrDominates(ci, st) {
 							at := b.Of(st.Addr, st)
 							if ld, isLd := st.Val.(*ssa.UnOp); isLd {
-								if at.Is("faddr", "l") && ld.X == a0 {
+								if at.Is("faddr", "#0") && ld.X == a0 {
 									cl = true
 								}
-								if at.Is("faddr", "h") && ld.X == a1 {
+								if at.Is("faddr", "#1") && ld.X == a1 {
 									ch = true
 								}
 							}
